@@ -199,6 +199,19 @@ def f_macro_is_instruction(rng, d):
     return d
 
 
+def f_macro_is_instruction_other_case(rng, d):
+    # the same clash with the two keys spelled in different letter case
+    if not d.get('macros'):
+        return None
+    k = rng.choice(list(d['macros']))
+    ik = rng.choice(list(d['instructions']))
+    other = [v for v in (ik.upper(), ik.capitalize(), ik.lower()) if v != ik]
+    if not other:
+        return None
+    d['macros'] = _rename_key(d['macros'], k, rng.choice(other))
+    return d
+
+
 def f_no_bytecode(rng, d):
     vs = _variants_with(d, lambda v: 'bytecode' in v and 'variants' not in v, macros=False)
     if not vs:
@@ -266,6 +279,24 @@ def f_undeclared_register(rng, d):
     oc = rng.choice(ocs)
     oc['register'] = rng.choice(['q', 'zz', oc['register'].upper(), oc['register'] + '1'])
     return d
+
+
+def _undeclared_register_in(optype):
+    def f(rng, d):
+        ocs = [oc for oc in walk_operand_configs(d) if oc.get('type') == optype]
+        if not ocs:
+            return None
+        oc = rng.choice(ocs)
+        oc['register'] = rng.choice(['q', 'zz', oc['register'] + '1'])
+        return d
+    f.__name__ = 'f_undeclared_register_in_' + optype
+    return f
+
+
+f_undeclared_register_in_register = _undeclared_register_in('register')
+f_undeclared_register_in_indexed_register = _undeclared_register_in('indexed_register')
+f_undeclared_register_in_indirect_register = _undeclared_register_in('indirect_register')
+f_undeclared_register_in_indirect_indexed_register = _undeclared_register_in('indirect_indexed_register')
 
 
 def f_drop_register(rng, d):
@@ -368,7 +399,9 @@ def f_min_version_garbage(rng, d):
 
 
 FAULTS = [f_no_general, f_no_instructions, f_no_operand_sets, f_mnemonic_keyword, f_macro_keyword, f_register_keyword,
-          f_register_keyword_other_case, f_inverted_relative_range, f_zone_below_space,
+          f_register_keyword_other_case, f_inverted_relative_range, f_zone_below_space, f_macro_is_instruction_other_case,
+          f_undeclared_register_in_register, f_undeclared_register_in_indexed_register, f_undeclared_register_in_indirect_register,
+          f_undeclared_register_in_indirect_indexed_register,
           f_macro_is_instruction, f_no_bytecode, f_no_count, f_unknown_set, f_count_vs_sets, f_count_vs_specific,
           f_undeclared_register, f_drop_register, f_inverted_range, f_zone_beyond_space, f_global_beyond_space, f_zone_inverted, f_zone_outside_global,
           f_global_after_origin, f_min_version_newer, f_min_version_older, f_min_version_garbage]
